@@ -233,4 +233,61 @@ theorem c19_node_res (excl : Bool) (cap : NodeCap) (sw : Switches) (ready : Bool
 example : (poolConfig ⟨0, 0, 5, 0, 0, false, false, false, .ipv4⟩ .multiIP (getInstanceType ⟨4, 10, 10, 14, 0, true⟩)).capacity = 30 := by decide
 example : flavor ⟨8, 10, 10, 6, 2⟩ ⟨true, true, true, true⟩ = [⟨.trunk, 1⟩, ⟨.erdma, 1⟩, ⟨.standard, 5⟩] := by decide
 
+/-! ### the capacity in the Node CR is that of the node's current instance type -/
+
+/-- the invariant: the stored capacity is the limits of the stored type -/
+def CapFollows (cr : Option NodeCR) : Prop := ∀ c, cr = some c → c.capOf = some c.md.type
+
+theorem nodeReconcile_follows (cr : Option NodeCR) (info : NodeMeta) (f : Bool) (h : CapFollows cr) :
+    CapFollows (nodeReconcile cr info f).1 := by
+  intro c hc
+  unfold nodeReconcile at hc
+  cases cr with
+  | none =>
+    cases f
+    · simp at hc; subst hc; rfl
+    · simp at hc
+  | some c0 =>
+    simp only at hc
+    by_cases hm : c0.md = info
+    · rw [if_pos hm] at hc; simp at hc; subst hc; exact h c0 rfl
+    · rw [if_neg hm] at hc
+      cases f
+      · simp at hc; subst hc; rfl
+      · simp at hc; subst hc; exact h c0 rfl
+
+/-- **in every history of reconciles** (instance type, instance id, zone and region labels changing in any way
+    between them, limits lookups failing at any of them) that starts without a Node CR, whenever a reconcile
+    succeeds the CR records the node's current instance type and carries that type's limits — in particular after an
+    in-place resize under the same instance id; everything the controllers advertise from `Spec.NodeCap`
+    (`c19_anno_ips`, `c19_node_res`, `c19_slots_crd`) is therefore bounded by the current type -/
+theorem c19_nodecap_follows_type (hist : List (NodeMeta × Bool)) (info : NodeMeta) (f : Bool) :
+    (nodeReconcile (nodeRun none hist) info f).2 = true →
+    ∃ c, (nodeReconcile (nodeRun none hist) info f).1 = some c ∧ c.md = info ∧ c.capOf = some info.type := by
+  have hinv : ∀ (h : List (NodeMeta × Bool)) (cr : Option NodeCR), CapFollows cr → CapFollows (nodeRun cr h) := by
+    intro h
+    induction h with
+    | nil => intro cr hc; exact hc
+    | cons x xs ih => intro cr hc; exact ih _ (nodeReconcile_follows cr x.1 x.2 hc)
+  have h0 : CapFollows (nodeRun none hist) := hinv hist none (by intro c hc; cases hc)
+  generalize nodeRun none hist = cr at h0
+  intro hok
+  unfold nodeReconcile at hok ⊢
+  cases cr with
+  | none =>
+    cases f
+    · exact ⟨_, rfl, rfl, rfl⟩
+    · simp at hok
+  | some c0 =>
+    simp only at hok ⊢
+    by_cases hm : c0.md = info
+    · rw [if_pos hm]; exact ⟨c0, rfl, hm, by rw [h0 c0 rfl, hm]⟩
+    · rw [if_neg hm] at hok ⊢
+      cases f
+      · exact ⟨_, rfl, rfl, rfl⟩
+      · simp at hok
+
+/-- non-vacuity: an in-place resize (same id, type 1 → type 2) -/
+example : nodeRun none [(⟨1, 7, 0, 0⟩, false), (⟨2, 7, 0, 0⟩, false)] = some ⟨⟨2, 7, 0, 0⟩, some 2⟩ := by decide
+
 end Terway.Props.C19
